@@ -5,7 +5,7 @@
    is in the section "receiver" below as far as it is proved. *)
 From Via Require Import M_Char M_Parse M_Receive P_Parse.
 From Via Require Import P_Frag P_Term.
-From Via Require Import M_Imp Gen_Parse P_Imp.
+From Via Require Import M_Imp M_Loop M_Hdr Gen_Parse P_Imp P_Loop P_Hdr.
 Local Open Scope N_scope.
 
 Theorem C01_request_line_fragments : forall L a r b, rl_valid r = false ->
@@ -214,3 +214,66 @@ Theorem C01_field_line_model_is_the_source : forall L f c,
 Proof. exact fl_parse_char_is_the_source. Qed.
 Print Assumptions C01_request_line_model_is_the_source.
 Print Assumptions C01_field_line_model_is_the_source.
+
+(* ---- the loops around parse_char, and what a parser is reset to ----
+   The buffer-level functions (parse(iter, end)) of the line parsers are translated too (a term of M_Loop.v: a while
+   loop over the input that calls the translated parse_char), and the model functions are proved to compute, for EVERY
+   parser state and EVERY input, what the translated loop computes: the value returned, the parser afterwards and the
+   input left unread.  The fuel only has to exceed the length of the input: the loop of the source provably finishes
+   within one pass, and never reads past the end (both would be `None`). *)
+Theorem C01_request_line_loop_is_the_source : forall L r buf fuel, (length buf < fuel)%nat ->
+  lrun (rl_lim L) (rl_src L) fuel rl_parse_src (rl_store r) buf =
+  Some (let '(r', rest, p) := rl_parse L r buf in (is_done p, rl_store r', rest)).
+Proof. exact rl_parse_is_the_source. Qed.
+Theorem C01_field_line_loop_is_the_source : forall L f buf fuel, (length buf < fuel)%nat ->
+  lrun (fl_lim L) (fl_src L) fuel fl_parse_src (fl_store f) buf =
+  Some (let '(f', rest, p) := fl_parse L f buf in (is_done p, fl_store f', rest)).
+Proof. exact fl_parse_is_the_source. Qed.
+Theorem C01_chunk_line_model_is_the_source : forall L k c,
+  run_body (ck_lim L) c (ck_src L) (ck_store k) = (ck_store (fst (ck_parse_char L k c)), snd (ck_parse_char L k c)).
+Proof. exact ck_parse_char_is_the_source. Qed.
+Theorem C01_chunk_line_loop_is_the_source : forall L k buf fuel, (length buf < fuel)%nat ->
+  lrun (ck_lim L) (ck_src L) fuel ck_parse_src (ck_store k) buf =
+  Some (let '(k', rest, p) := ck_parse L k buf in (is_done p, ck_store k', rest)).
+Proof. exact ck_parse_is_the_source. Qed.
+(* clear(), translated as well: the next request on a connection is parsed from exactly the state the model starts it
+   from, whatever the previous one left behind *)
+Theorem C01_request_line_reset_is_the_source : forall lim c r,
+  exec lim c rl_clear_src (rl_store r) = (ONormal, rl_store rl_init).
+Proof. exact rl_clear_is_the_source. Qed.
+Theorem C01_field_line_reset_is_the_source : forall lim c f,
+  exec lim c fl_clear_src (fl_store f) = (ONormal, fl_store fl_init).
+Proof. exact fl_clear_is_the_source. Qed.
+Theorem C01_chunk_line_reset_is_the_source : forall lim c k,
+  exec lim c ck_clear_src (ck_store k) = (ONormal, ck_store (ck_init (ck_max k))).
+Proof. exact ck_clear_is_the_source. Qed.
+(* the translated loop really runs: "GET / HTTP/1.1" CR LF and two bytes more, from a fresh parser *)
+Example C01_request_line_loop_example :
+  let L := mk_limits 8190 8 100 65534 1024 8 65534 65534 false in
+  lrun (rl_lim L) (rl_src L) 40 rl_parse_src (rl_store rl_init)
+       [71;69;84;32;47;32;72;84;84;80;47;49;46;49;13;10;72;111] =
+  Some (true, mk_store 12 [[71;69;84]; [47]] [1; 49; 49; 1; 0], [72;111]).
+Proof. vm_compute. reflexivity. Qed.
+Print Assumptions C01_request_line_loop_is_the_source.
+Print Assumptions C01_field_line_loop_is_the_source.
+Print Assumptions C01_chunk_line_model_is_the_source.
+Print Assumptions C01_chunk_line_loop_is_the_source.
+Print Assumptions C01_request_line_reset_is_the_source.
+Print Assumptions C01_field_line_reset_is_the_source.
+Print Assumptions C01_chunk_line_reset_is_the_source.
+
+(* message_headers::parse(iter, end), translated as well (a term of M_Hdr.v whose calls into the field line run the
+   translated field_line functions above): for every header block, every input and every sufficient fuel the model's
+   hd_parse returns what the translated body returns - the verdict, the fields collected, the flags, the accumulated
+   length and the input left unread.  hd_ok (a field line that has consumed nothing is the initial one) holds
+   initially and is kept by every parse (P_Frag.hd_loop_ok). *)
+Theorem C01_header_block_is_the_source : forall L h buf fuel, hd_ok h -> (length buf + 2 <= fuel)%nat ->
+  hrun (fl_lim L) (hd_lim L) (fl_code_of L) fuel hd_parse_src (hd_store h) buf =
+  Some (let '(h', rest, p) := hd_parse L h buf in (is_done p, hd_store h', rest)).
+Proof. exact hd_parse_is_the_source. Qed.
+Example C01_header_block_source_example :
+  let L := mk_limits 8190 8 100 65534 1024 8 65534 65534 false in
+  hrun (fl_lim L) (hd_lim L) (fl_code_of L) 40 hd_parse_src (hd_store hd_init) [72;58;32;120;13;10;65;58;49;13;10;13;10;90] =
+  Some (true, mk_hs [([104],[120]); ([97],[49])] (fl_store fl_init) [1; 0; 1; 4], [90]).
+Proof. vm_compute. reflexivity. Qed.
+Print Assumptions C01_header_block_is_the_source.
